@@ -58,6 +58,12 @@ SEEDS = [
      [['Append', 'INBOX', ['\\Deleted']], ['Append', 'INBOX', []], ['Select', 'INBOX'],
       ['Store', 'INBOX', 2, 'add', '\\Deleted'], ['Expunge', 'INBOX'], ['Check', 'INBOX'],
       ['Append', 'INBOX', ['\\Seen']]]),
+    ('uid-after-expunge-of-highest-check', False,
+     [['Append', 'INBOX', []], ['Append', 'INBOX', []], ['Append', 'INBOX', ['\\Seen']],
+      ['Select', 'INBOX'], ['Store', 'INBOX', 3, 'add', '\\Deleted'], ['Expunge', 'INBOX'],
+      ['Check', 'INBOX'], ['Append', 'INBOX', ['\\Flagged']], ['Select', 'INBOX'],
+      ['Store', 'INBOX', 2, 'add', '\\Deleted'], ['Expunge', 'INBOX'], ['Check', 'INBOX'],
+      ['Copy', 'INBOX', 1, 'INBOX']]),
     ('nested-rename', False,
      [['Create', 'Box'], ['Create', 'Box/sub'], ['Append', 'Box/sub', ['\\Seen']],
       ['Append', 'Box', []], ['Subscribe', 'Box/sub'], ['Rename', 'Box', 'Arch'],
